@@ -3,7 +3,7 @@
    (set expression of the input-only variables, sort key, nouts).  No proofs here. *)
 From Coq Require Import List String Bool Arith.
 Import ListNotations.
-Require Import MV.Contract.ContractSyntax.
+Require Import MV.Contract.ContractSyntax MV.Contract.StateModel.
 Local Open Scope string_scope.
 
 Definition smem (x : string) (l : list string) : bool := existsb (String.eqb x) l.
@@ -63,3 +63,11 @@ Definition block_vars (B : blockvars_tpl) (r : sets) : option (list string * nat
 
 Definition input_only (B : blockvars_tpl) (r : sets) : list string :=
   match interp B r (bv_input B) with Some io => io | None => [] end.
+
+(* ControlFlowTransformer._get_block_composite_vars: a composite symbol modified in the block becomes a block variable only
+   if every simple symbol it is resolved through (QN.support_set, literals dropped) is live into the statement -- an item
+   t[p.i] whose p is created inside the block is a local matter of the block *)
+Definition composite_admitted (live_in : list string) (q : qn) : bool :=
+  forallb (fun x => smem x live_in) (support q).
+Definition composites_admitted (live_in : list string) (vars : list qn) : bool :=
+  forallb (fun q => is_simple q || composite_admitted live_in q) vars.
